@@ -524,6 +524,8 @@ class EvalMixin:
             if name in v.methods:
                 f = v.methods[name]
                 return BuiltinFn(f"{v.tag}.{name}", lambda interp, args, kwargs, _f=f: _f(interp, *args, **kwargs))
+            if v.tag == "facade":  # plain record object built by a contract: exactly the listed attributes exist
+                raise PyExc("AttributeError", name)
             raise Unsupported(f"attribute {name} of opaque {v.tag}")
         if isinstance(v, ModuleRef):
             r = self.repo.resolve_global(v.module, name)
